@@ -84,6 +84,11 @@ def plan(tier: str, seed: int) -> Plan:
             conds.append(Condition(f"sched{k}:{s}:{q}", "schedule", H, "schedule",
                                    {"qtext": q, "spine": s, "leaf": "int", "sched": k, "maxn": 2}, T * 2, required=False,
                                    bounds=f"two async evaluations interleaved under {k} symbolic scheduling choices"))
+    for q, s in [("$.a | $.b", "obj2"), ("$..* & $.a.*", "nest1"), ("$[?@.a == $[0].a]", "objarr"), ("$..*", "nest1")] + (
+            [("$.a | $.b | $.a", "obj2"), ("$[0] | $[1]", "arr"), ("$..a", "deep")] if thorough else []):
+        conds.append(Condition(f"forms:{s}:{q}", "forms", H, "forms", {"qtext": q, "spine": s, "maxn": 1}, T * 2, required=False,
+                               bounds="document given as JSON text, text file and binary file (two leaves from a pool of 4 values: json.dumps "
+                                      "concretises); findall/finditer and their async twins agree with evaluation of the parsed document"))
     return Plan(
         conditions=conds,
         explanation=(
